@@ -520,6 +520,9 @@ pub fn run(ctx: &Ctx) -> Report {
     let j = par_run(ctx, &items, |_, (is_bdd, n, o, vt, step)| if *is_bdd { json_bdd_config(o, *n, *step) } else { json_sdd_config(vt, *n, *step) });
     rep.add_extra("diagrams_serialised", j.transitions);
     rep.merge(j);
+    if !disabled("deepjson") {
+        rep.merge(json_deep_all(ctx));
+    }
     // vtrees
     let mut trees: Vec<VT> = Vec::new();
     for n in 1..=ctx.tier.pick(4, 5) {
@@ -579,6 +582,7 @@ pub fn replay(_ctx: &Ctx, case: &Value) -> Report {
                 }
             }
         }
+        Some("json_deep") => rep.merge(json_deep(case["n"].as_u64().unwrap_or(66) as usize, case["shape"].as_u64().unwrap_or(0) as usize)),
         Some("json_bdd") => rep.merge(json_bdd_config(&arr(&case["order"]), case["n"].as_u64().unwrap_or(3) as usize, 1)),
         Some("json_sdd") => rep.merge(json_sdd_config(&VT::parse(case["vtree"].as_str().unwrap_or("0")).unwrap_or(VT::Leaf(0)), case["n"].as_u64().unwrap_or(3) as usize, 1)),
         Some("json_vtree") => {
@@ -593,4 +597,242 @@ pub fn replay(_ctx: &Ctx, case: &Value) -> Report {
         _ => {}
     }
     rep
+}
+
+// ---------------------------------------------------------------------------------------------
+// deep diagrams: 66 to 300 variables (serialisers are recursive walks with index tables; depth, table size
+// and label thresholds are only reached here). The JSON is evaluated under rule-defined assignments by a
+// memoised reader and compared with the function's definition.
+
+fn json_eval(v: &Value, a: &[bool], sdd: bool) -> Result<bool, String> {
+    let nodes = v["nodes"].as_array().ok_or("no nodes array")?;
+    let root = v["roots"].as_array().and_then(|r| r.first()).ok_or("no root")?;
+    fn ptr(p: &Value, nodes: &[Value], a: &[bool], sdd: bool, memo: &mut Vec<Option<bool>>, depth: usize) -> Result<bool, String> {
+        if depth > 4096 {
+            return Err("cyclic node table".into());
+        }
+        if p.as_str() == Some("True") {
+            return Ok(true);
+        }
+        if p.as_str() == Some("False") {
+            return Ok(false);
+        }
+        if let Some(l) = p.get("Literal") {
+            let label = l["label"].as_u64().ok_or("no label")? as usize;
+            let pol = l["polarity"].as_bool().ok_or("no polarity")?;
+            return Ok(*a.get(label).ok_or(format!("label {} out of range", label))? == pol);
+        }
+        let q = p.get("Ptr").ok_or(format!("bad pointer {}", p))?;
+        let idx = q["index"].as_u64().ok_or("no index")? as usize;
+        let compl = q["compl"].as_bool().ok_or("no compl flag")?;
+        let val = match memo.get(idx).cloned().ok_or(format!("index {} out of range", idx))? {
+            Some(b) => b,
+            None => {
+                let nd = &nodes[idx];
+                let b = if sdd {
+                    let ands = nd.as_array().or_else(|| nd.get("nodes").and_then(|x| x.as_array())).ok_or(format!("node {} is not a list of elements", idx))?;
+                    let mut t = false;
+                    for e in ands {
+                        if ptr(&e["prime"], nodes, a, sdd, memo, depth + 1)? && ptr(&e["sub"], nodes, a, sdd, memo, depth + 1)? {
+                            t = true;
+                        }
+                    }
+                    t
+                } else {
+                    let var = nd["topvar"].as_u64().ok_or("no topvar")? as usize;
+                    if *a.get(var).ok_or(format!("topvar {} out of range", var))? {
+                        ptr(&nd["high"], nodes, a, sdd, memo, depth + 1)?
+                    } else {
+                        ptr(&nd["low"], nodes, a, sdd, memo, depth + 1)?
+                    }
+                };
+                memo[idx] = Some(b);
+                b
+            }
+        };
+        Ok(val != compl)
+    }
+    let mut memo = vec![None; nodes.len()];
+    ptr(root, nodes, a, sdd, &mut memo, 0)
+}
+
+/// the deep functions over n variables (m = n / 2): definitions on assignments
+fn deep_value(kind: usize, a: &[bool]) -> bool {
+    let n = a.len();
+    let m = n / 2;
+    let par = |r: std::ops::Range<usize>| r.fold(false, |x, i| x ^ a[i]);
+    match kind {
+        0 => a.iter().all(|&x| x),
+        1 => par(0..n),
+        2 => {
+            if par(0..m) {
+                (m..n).all(|i| a[i])
+            } else {
+                par(m..n)
+            }
+        }
+        _ => (0..m).all(|i| a[i] || a[i + m]),
+    }
+}
+
+fn deep_assignments(n: usize) -> Vec<Vec<bool>> {
+    let mut out = vec![vec![true; n], vec![false; n], (0..n).map(|i| i % 2 == 0).collect::<Vec<_>>(), (0..n).map(|i| i % 3 != 0).collect::<Vec<_>>()];
+    for k in 0..24usize {
+        let pos = (k * 37 + 5) % n;
+        let mut a = vec![true; n];
+        a[pos] = false;
+        out.push(a.clone());
+        a[(pos + n / 2) % n] = false;
+        out.push(a);
+        let mut z = vec![false; n];
+        z[pos] = true;
+        out.push(z);
+        // first half of odd parity, second half all true except possibly one
+        let mut h = vec![true; n];
+        for i in 0..n / 2 {
+            h[i] = i == pos % (n / 2).max(1) || (i + k) % 5 == 0;
+        }
+        out.push(h.clone());
+        h[n / 2 + pos % (n - n / 2)] = false;
+        out.push(h);
+    }
+    out
+}
+
+fn json_deep(n: usize, shape: usize) -> Report {
+    use rsdd::repr::{BddPtr, VTree};
+    let mut r = Report::default();
+    r.exhaustive = true;
+    let labs: Vec<VarLabel> = (0..n).map(|v| VarLabel::new(v as u64)).collect();
+    let assignments = deep_assignments(n);
+    let case = json!({"kind": "json_deep", "n": n, "shape": shape});
+    let names = ["conjunction of all variables", "parity of all variables", "ite(parity of the first half, conjunction of the second half, parity of the second half)", "conjunction of the clauses (x_i | x_{i+m})"];
+    if shape < 4 {
+        let (sn, vt) = match shape {
+            0 => ("right-linear", VTree::right_linear(&labs)),
+            1 => ("left-linear", VTree::left_linear(&labs)),
+            2 => ("even_split(_, 1)", VTree::even_split(&labs, 1)),
+            _ => ("even_split(_, 3)", VTree::even_split(&labs, 3)),
+        };
+        rsdd::verif::set_table_capacity(4);
+        let b = CompressionSddBuilder::new(vt);
+        rsdd::verif::set_table_capacity(0);
+        let lit = |i: usize| b.var(VarLabel::new(i as u64), true);
+        let m = n / 2;
+        let build = |kind: usize| -> SddPtr {
+            let conj = |r: std::ops::Range<usize>| r.fold(SddPtr::PtrTrue, |acc, i| b.and(acc, lit(i)));
+            let par = |r: std::ops::Range<usize>| r.fold(SddPtr::PtrFalse, |acc, i| b.xor(acc, lit(i)));
+            match kind {
+                0 => conj(0..n),
+                1 => par(0..n),
+                2 => b.ite(par(0..m), conj(m..n), par(m..n)),
+                _ => (0..m).fold(SddPtr::PtrTrue, |acc, i| b.and(acc, b.or(lit(i), lit(i + m)))),
+            }
+        };
+        for kind in 0..4usize {
+            // the pairing clauses are exponential on vtrees that separate x_i from x_{i+m}
+            // measured: the pairing clauses are exponential on every one of these vtrees and the ite of the halves
+            // is on the left-linear vtree (minutes at 66 variables): both are left out there
+            if kind == 3 || (kind == 2 && shape == 1) {
+                continue;
+            }
+            if let Ok(k) = std::env::var("VERIF_KINDS") {
+                if !k.contains(&format!("{}", kind)) {
+                    continue;
+                }
+            }
+            let p = match guarded(|| build(kind)) {
+                Ok(p) => p,
+                Err(_) => continue, // construction is C03's business
+            };
+            for (ptr, neg) in [(p, false), (p.neg(), true)] {
+                r.transitions += 1;
+                r.states += 1;
+                let v = match guarded(|| serde_json::to_value(SDDSerializer::from_sdd(ptr))) {
+                    Ok(Ok(v)) => v,
+                    _ => {
+                        r.violation("json:sdd", format!("serialising the {}{} over {} variables ({} vtree) failed", if neg { "negated " } else { "" }, names[kind], n, sn), case.clone());
+                        continue;
+                    }
+                };
+                for a in assignments.iter() {
+                    r.evaluations += 1;
+                    // only diagrams that denote the function are serialised (construction is C03's business)
+                    if crate::walk::sdd_eval_memo(ptr, a) != (deep_value(kind, a) != neg) {
+                        break;
+                    }
+                    match json_eval(&v, a, true) {
+                        Ok(g) if g == (deep_value(kind, a) != neg) => {}
+                        Ok(g) => {
+                            r.violation("json:sdd", format!("{} vtree over {} variables: the JSON of the {}{} evaluates to {} where the function is {} ({} nodes in the table)", sn, n, if neg { "negated " } else { "" }, names[kind], g, !g, v["nodes"].as_array().map(|x| x.len()).unwrap_or(0)), case.clone());
+                            break;
+                        }
+                        Err(e) => {
+                            r.violation("json:sdd", format!("{} vtree over {} variables: the JSON of the {}{} is unreadable: {}", sn, n, if neg { "negated " } else { "" }, names[kind], e), case.clone());
+                            break;
+                        }
+                    }
+                }
+            }
+        }
+    } else {
+        // BDD in label order (shape 4) and in reversed label order (shape 5)
+        let order: Vec<usize> = if shape == 4 { (0..n).collect() } else { (0..n).rev().collect() };
+        let b = small_builder(&order, 4);
+        let lit = |i: usize| b.var(VarLabel::new(i as u64), true);
+        let m = n / 2;
+        for kind in 0..3usize {
+            let p = match guarded(|| {
+                let conj = |r: std::ops::Range<usize>| r.fold(BddPtr::PtrTrue, |acc, i| b.and(acc, lit(i)));
+                let par = |r: std::ops::Range<usize>| r.fold(BddPtr::PtrFalse, |acc, i| b.xor(acc, lit(i)));
+                match kind {
+                    0 => conj(0..n),
+                    1 => par(0..n),
+                    _ => b.ite(par(0..m), conj(m..n), par(m..n)),
+                }
+            }) {
+                Ok(p) => p,
+                Err(_) => continue,
+            };
+            for (ptr, neg) in [(p, false), (p.neg(), true)] {
+                r.transitions += 1;
+                r.states += 1;
+                let v = match guarded(|| serde_json::to_value(BDDSerializer::from_bdd(ptr))) {
+                    Ok(Ok(v)) => v,
+                    _ => {
+                        r.violation("json:bdd", format!("serialising the {}{} over {} variables failed", if neg { "negated " } else { "" }, names[kind], n), case.clone());
+                        continue;
+                    }
+                };
+                for a in assignments.iter() {
+                    r.evaluations += 1;
+                    match json_eval(&v, a, false) {
+                        Ok(g) if g == (deep_value(kind, a) != neg) => {}
+                        Ok(g) => {
+                            r.violation("json:bdd", format!("order {} over {} variables: the JSON of the {}{} evaluates to {} where the function is {}", if shape == 4 { "by label" } else { "reversed" }, n, if neg { "negated " } else { "" }, names[kind], g, !g), case.clone());
+                            break;
+                        }
+                        Err(e) => {
+                            r.violation("json:bdd", format!("order {} over {} variables: the JSON of the {}{} is unreadable: {}", if shape == 4 { "by label" } else { "reversed" }, n, if neg { "negated " } else { "" }, names[kind], e), case.clone());
+                            break;
+                        }
+                    }
+                }
+            }
+        }
+    }
+    r
+}
+
+fn json_deep_all(ctx: &Ctx) -> Report {
+    let mut items: Vec<(usize, usize)> = Vec::new();
+    for &n in ctx.tier.pick(vec![66usize, 130, 258], vec![34, 66, 130, 200, 258, 300]).iter() {
+        for shape in 0..6 {
+            items.push((n, shape));
+        }
+    }
+    let mut r = par_run(ctx, &items, |_, (n, shape)| json_deep(*n, *shape));
+    r.bound("deep_diagrams", json!({"variables": ctx.tier.pick(vec![66usize, 130, 258], vec![34, 66, 130, 200, 258, 300]), "representations": "SDD on right-linear, left-linear, even_split(_, 1), even_split(_, 3) vtrees; BDD in label order and reversed", "functions": "conjunction, parity, ite(parity, conjunction, parity) over the halves, pairing clauses; both polarities", "oracle": "the JSON node table evaluated by a memoised reader under about 120 rule-defined assignments each"}));
+    r.add_extra("deep_diagram_serialisations", r.transitions);
+    r
 }
